@@ -212,7 +212,7 @@ theorem ginv_fresh : GInv ({} : VGroup) := by
 /-- flushing keeps the persistent content (the version is already normal) -/
 theorem flush_toVG {g : VGroup} (h : GInv g) :
     ({ g with version := packVersion g.toVG, marked := false, newvg := false } : VGroup).toVG = g.toVG := by
-  have := packVersion_wf _ h.2.1
+  have := packVersion_wf _ h.2.1.fix
   simp only [VGroup.toVG] at this ⊢
   rw [this]
 
